@@ -80,6 +80,22 @@ def tmpdir():
     return _state["tmp"]
 
 
+def fresh_path(stem, ext=".fits"):
+    """A path that this process has never used before: a case must not meet a file name that an earlier case of the same
+    runner process has used (the code under test may key process-level caches on file names)."""
+    setup()
+    _state["nfile"] = _state.get("nfile", 0) + 1
+    return os.path.join(_state["tmp"], "%s_%d%s" % (stem, _state["nfile"], ext))
+
+
+def remove_quietly(*paths):
+    for p in paths:
+        try:
+            os.remove(p)
+        except OSError:
+            pass
+
+
 # ------------------------------------------------------------------------------------------
 # workload: configuration and image files
 # ------------------------------------------------------------------------------------------
